@@ -186,7 +186,7 @@ class Ctx:
         total = 0
         for k, v in self.violations.items():
             total += v["count"]
-            if ("hang" in k or "stall" in k) and v["count"] >= 3:
+            if ("-hang" in k or "stall" in k) and v["count"] >= 3:
                 return True
         return total >= 2000
 
